@@ -730,7 +730,9 @@ Section CapAll.
       pose proof (gdem_nonneg I a W Hsat x widx r (floor_slot I tau) pl Hx R) as Hnn.
       pose proof Hx as Hx'. apply free_tasks_In in Hx'. destruct Hx' as [Hxt _].
       apply readback_cell in R. destruct R as [w0 [t0 [i [s [_ [Ht0 [Hs [_ [_ [_ ->]]]]]]]]]].
-      rewrite (gdem_cell I W x w0 t0 i s) in * by auto.
+      rewrite (gdem_cell I W x w0 t0 i s widx r (floor_slot I tau) Hxt Hs) in Hnn.
+      rewrite (gdem_cell I W x w0 t0 i s widx r (floor_slot I tau) Hxt Hs).
+      rewrite (gdem_cell I W x w0 t0 i s widx r tau Hxt Hs).
       destruct (tw_idx w0 =? widx); cbv [andb] in *; [|lia].
       destruct (occupies t0 (st_runtime s) tau) eqn:E; [|exact Hnn].
       apply occupies_iff in E. assert (E2 : occupies t0 (st_runtime s) (floor_slot I tau) = true).
